@@ -6,7 +6,7 @@ CONSTANTS
   NP = 1
   Names = {"a"}
   Vals = {1}
-  Acts = {"CreateObject", "AddData", "Copy", "SetType", "SetVal", "RemoveViaWorkspace", "Collect", "DropRef", "Close", "Open"}
+  Acts = {"CreateObject", "AddData", "AddDataLike", "Copy", "SetType", "SetVal", "RemoveViaWorkspace", "Collect", "DropRef", "Close", "Open"}
   Deviations = {"CloseKeepsOrphans"}
   MaxDepth = 8
 CONSTRAINT DepthBound
